@@ -533,7 +533,8 @@ Definition hd_post (a : arr) (h i : N) (a2 : arr) (it2 : titer) : Prop :=
     aget a2 i2 = aget a i /\
     (forall j, i2 - (2 ^ h2 - 1) <= j <= i2 + (2 ^ h2 - 1) -> j <> i2 -> aget a2 j = None) /\
     (forall n, i + (2 ^ h - 1) <= N.of_nat n ->
-               used_from n (aclr a2 i2) 1 = used_from n (aclr a i) 1).
+               used_from n (aclr a2 i2) 1 = used_from n (aclr a i) 1) /\
+    (forall j, j < i - (2 ^ h - 1) \/ i + (2 ^ h - 1) < j -> aget a2 j = aget a j).
 
 Definition hd_ok (f : nat) : Prop :=
   forall a R h i a2 it2,
@@ -548,7 +549,7 @@ Lemma hd_done : forall a h i, node h i ->
 Proof.
   intros a h i Hn Hz. exists h, i.
   split; [reflexivity|]. split; [assumption|]. split; [lia|]. split; [lia|]. split; [lia|].
-  split; [tauto|]. split; [reflexivity|]. split; [assumption|]. reflexivity.
+  split; [tauto|]. split; [reflexivity|]. split; [assumption|]. split; reflexivity.
 Qed.
 
 (* the hole moves to slot p of the subtree, its neighbour in the used sequence *)
@@ -584,7 +585,7 @@ Proof.
     - rewrite (aget_swap_slots a i p ei ep p Ei Ep). rewrite N.eqb_refl. discriminate.
     - lia.
     - assumption. }
-  destruct Hpost as [h2 [i2 [P1 [P2 [P3 [P4 [P5 [P6 [P7 [P8 P9]]]]]]]]]].
+  destruct Hpost as [h2 [i2 [P1 [P2 [P3 [P4 [P5 [P6 [P7 [P8 [P9 P10]]]]]]]]]]].
   exists h2, i2.
   split; [assumption|]. split; [assumption|]. split; [lia|]. split; [lia|]. split; [lia|].
   split.
@@ -592,13 +593,19 @@ Proof.
   split.
   { rewrite P7. rewrite (aget_swap_slots a i p ei ep p Ei Ep). rewrite N.eqb_refl. symmetry. exact Ei. }
   split; [assumption|].
-  intros n Hn'. rewrite P9 by lia.
-  assert (Hi0 : i <> 0) by (apply aget_some_pos with a ei; assumption).
-  destruct (N.lt_ge_cases p i) as [L|L].
-  - apply (swap_step a i p ei ep p i n); try assumption; try lia.
-    intros j Hj Hji Hjp. apply Hmid. lia.
-  - apply (swap_step a i p ei ep i p n); try assumption; try lia.
-    intros j Hj Hji Hjp. apply Hmid. lia.
+  split.
+  { intros n Hn'. rewrite P9 by lia.
+    assert (Hi0 : i <> 0) by (apply aget_some_pos with a ei; assumption).
+    destruct (N.lt_ge_cases p i) as [L|L].
+    - apply (swap_step a i p ei ep p i n); try assumption; try lia.
+      intros j Hj Hji Hjp. apply Hmid. lia.
+    - apply (swap_step a i p ei ep i p n); try assumption; try lia.
+      intros j Hj Hji Hjp. apply Hmid. lia. }
+  intros j Hj. rewrite P10 by lia.
+  pose proof (node_ge _ _ Hn) as Hgei. pose proof (pow2_pos (N.succ h')) as Hpi.
+  rewrite (aget_swap_slots a i p ei ep j Ei Ep).
+  destruct (j =? p) eqn:E1; [apply N.eqb_eq in E1; lia|].
+  destruct (j =? i) eqn:E2; [apply N.eqb_eq in E2; lia|]. reflexivity.
 Qed.
 
 Lemma hd_ok_all : forall f, hd_ok f.
@@ -668,7 +675,8 @@ Lemma hole_down_spec : forall f a R h i,
     aget a2 i2 = aget a i /\
     (forall j, i2 - (2 ^ h2 - 1) <= j <= i2 + (2 ^ h2 - 1) -> j <> i2 -> aget a2 j = None) /\
     (forall n, i + (2 ^ h - 1) <= N.of_nat n ->
-               used_from n (aclr a2 i2) 1 = used_from n (aclr a i) 1).
+               used_from n (aclr a2 i2) 1 = used_from n (aclr a i) 1) /\
+    (forall j, j < i - (2 ^ h - 1) \/ i + (2 ^ h - 1) < j -> aget a2 j = aget a j).
 Proof.
   intros f a R h i Hr Hs Hn Hb Hu Hf.
   destruct (hole_down f (fuel_of R) a R (i, 2 ^ h)) as [a2 it2] eqn:E.
@@ -691,16 +699,18 @@ Lemma hole_down_fuel_of : forall a R h i,
     aget a2 i2 = aget a i /\
     (forall j, i2 - (2 ^ h2 - 1) <= j <= i2 + (2 ^ h2 - 1) -> j <> i2 -> aget a2 j = None) /\
     used_from (N.to_nat R) (aclr a2 i2) 1 = used_from (N.to_nat R) (aclr a i) 1 /\
-    in_range_a a2 R /\ shape_a a2 R.
+    in_range_a a2 R /\ shape_a a2 R /\
+    (forall j, j < i - (2 ^ h - 1) \/ i + (2 ^ h - 1) < j -> aget a2 j = aget a j).
 Proof.
   intros a R h i Hr Hs Hn Hb Hu.
   assert (Hf : (N.to_nat h <= fuel_of R)%nat) by (apply height_fuel with i; [assumption|lia]).
   pose proof (hole_down_spec (fuel_of R) a R h i Hr Hs Hn Hb Hu Hf) as H.
   destruct (hole_down (fuel_of R) (fuel_of R) a R (i, 2 ^ h)) as [a2 it2].
-  destruct H as [h2 [i2 [P1 [P2 [P3 [P4 [P5 [P6 [P7 [P8 P9]]]]]]]]]].
+  destruct H as [h2 [i2 [P1 [P2 [P3 [P4 [P5 [P6 [P7 [P8 [P9 P10]]]]]]]]]]].
   exists h2, i2. repeat (split; [assumption|]).
   split; [apply P9; lia|].
-  split; [apply same_used_in_range with a; assumption|apply same_used_shape with a; assumption].
+  split; [apply same_used_in_range with a; assumption|].
+  split; [apply same_used_shape with a; assumption|exact P10].
 Qed.
 
 (* the same, for an iterator given by its slot (erase_pos: it_of p) *)
@@ -713,7 +723,8 @@ Lemma hole_down_it_of : forall a R i,
     aget a2 i2 = aget a i /\
     (forall j, i2 - (lowbit i2 - 1) <= j <= i2 + (lowbit i2 - 1) -> j <> i2 -> aget a2 j = None) /\
     used_from (N.to_nat R) (aclr a2 i2) 1 = used_from (N.to_nat R) (aclr a i) 1 /\
-    in_range_a a2 R /\ shape_a a2 R.
+    in_range_a a2 R /\ shape_a a2 R /\
+    (forall j, j < i - (lowbit i - 1) \/ i + (lowbit i - 1) < j -> aget a2 j = aget a j).
 Proof.
   intros a R i Hr Hs Hu Hb.
   assert (Hi0 : i <> 0) by (apply aget_used_pos with a; assumption).
@@ -721,7 +732,7 @@ Proof.
   pose proof (node_lowbit _ _ Hn) as El. unfold it_of. rewrite El in *.
   pose proof (hole_down_fuel_of a R h i Hr Hs Hn Hb Hu) as H.
   destruct (hole_down (fuel_of R) (fuel_of R) a R (i, 2 ^ h)) as [a2 it2].
-  destruct H as [h2 [i2 [P1 [P2 [P3 [P4 [P5 [P6 [P7 [P8 [P9 [P10 P11]]]]]]]]]]]].
+  destruct H as [h2 [i2 [P1 [P2 [P3 [P4 [P5 [P6 [P7 [P8 [P9 [P10 [P11 P12]]]]]]]]]]]]].
   pose proof (node_lowbit _ _ P2) as El2.
   exists i2. rewrite El2.
   split; [assumption|]. split; [apply N.pow_le_mono_r; [lia|assumption]|].
@@ -1422,7 +1433,9 @@ Lemma reb_tail : forall a (add : bool) h' i' ss',
   let '(a2, _, _) := redis (fuel_of R) R key val ss' i'
                        (a1, fu + 1, negb (fu =? i' + 2 ^ h' - 1 - ss')) in
   seg a2 1 R = (if add then ins key val (seg a 1 R) else seg a 1 R) /\
-  in_range_a a2 R /\ shape_a a2 R.
+  in_range_a a2 R /\ shape_a a2 R /\
+  (forall j, j < i' - (2 ^ h' - 1) \/ i' + (2 ^ h' - 1) < j -> aget a2 j = aget a j) /\
+  (aget a2 i' <> None \/ forall j, in_sub h' i' j -> aget a2 j = None).
 Proof.
   intros a add h' i' ss' Hrange Hshape Hnode Hh' Hhi Hss Hfit Hanc Hadd.
   pose proof (node_ge _ _ Hnode) as Hge. pose proof (pow2_pos h') as Hp.
@@ -1471,7 +1484,12 @@ Proof.
   assert (Hsplit : forall b, seg b 1 R = seg b 1 (lo - 1) ++ seg b lo hiT ++ seg b (hiT + 1) R).
   { intro b. rewrite (seg_app b 1 (lo - 1) R) by lia. f_equal.
     replace (lo - 1 + 1) with lo by lia. apply seg_app; lia. }
-  split; [|split].
+  assert (Hrootuse : aget a2 i' <> None \/ forall j, in_sub h' i' j -> aget a2 j = None).
+  { destruct (N.eq_dec ss' 0) as [Hz|Hnz]; [right|left; apply R7; lia].
+    assert (Hemn : em = []). { destruct em; [reflexivity|]. unfold len in R2. cbn in R2. lia. }
+    rewrite Hemn in R4. intros j Hj. unfold seg in R4. apply (used_from_nil_inv _ _ _ R4).
+    unfold in_sub in Hj. fold lo hiT in Hj. lia. }
+  split; [|split; [|split; [|split; [exact Hout|exact Hrootuse]]]].
   - rewrite (Hsplit a2), (Hsplit a).
     rewrite (seg_ext a2 a 1 (lo - 1)) by (intros j Hj; apply Hout; lia).
     rewrite (seg_ext a2 a (hiT + 1) R) by (intros j Hj; apply Hout; lia).
@@ -1529,7 +1547,11 @@ Lemma rebalance_spec : forall a R md h i key val,
      len (seg a 1 R) + 1 <= R) ->
   let '(a2, it') := rebalance (fuel_of R) a R md (i, 2 ^ h) key val in
   seg a2 1 R = match aget a i with Some _ => ins key val (seg a 1 R) | None => seg a 1 R end /\
-  in_range_a a2 R /\ shape_a a2 R.
+  in_range_a a2 R /\ shape_a a2 R /\
+  exists h' i', it' = (i', 2 ^ h') /\ node h' i' /\ h <= h' < md /\ i' + (2 ^ h' - 1) <= R /\
+    i' - (2 ^ h' - 1) <= i - (2 ^ h - 1) /\ i + (2 ^ h - 1) <= i' + (2 ^ h' - 1) /\
+    (forall j, j < i' - (2 ^ h' - 1) \/ i' + (2 ^ h' - 1) < j -> aget a2 j = aget a j) /\
+    (aget a2 i' <> None \/ forall j, in_sub h' i' j -> aget a2 j = None).
 Proof.
   intros a R md h i key val Hmd HR HR3 Hrange Hshape Hnode Hhi Hh Hanc Hins.
   pose proof (node_ge _ _ Hnode) as Hge. pose proof (pow2_pos h) as Hp.
@@ -1599,9 +1621,13 @@ Proof.
   destruct (compact (fuel_of R) a R (i' + 2 ^ h' - 1) ss' key val add) as [a1 fu].
   destruct (redis (fuel_of R) R key val ss' i' (a1, fu + 1, negb (fu =? i' + 2 ^ h' - 1 - ss')))
     as [[a2 lu2] add2].
-  destruct RT as (T1 & T2 & T3). split; [|split; assumption].
-  rewrite T1. subst add. destruct (aget a i); reflexivity.
+  destruct RT as (T1 & T2 & T3 & T4 & T5). split; [|split; [assumption|split; [assumption|]]].
+  - rewrite T1. subst add. destruct (aget a i); reflexivity.
+  - exists h', i'. repeat (split; [first [reflexivity|assumption|lia]|]). exact T5.
 Qed.
+
+Lemma rebalance_R3 : forall fR a md it key val, rebalance fR a 3 md it key val = (a, it_root 3).
+Proof. reflexivity. Qed.
 
 
 (* ================= Insert ================= *)
@@ -1920,7 +1946,7 @@ Proof.
     { intros _. repeat split; auto. rewrite <- Habseg. rewrite len_length, Hlen. exact Hroom. }
     specialize (RS Hins).
     destruct (rebalance (fuel_of R) a R md (i, 2 ^ h) key val) as [a2 it2].
-    cbn [fst]. destruct RS as (S1 & S2 & S3).
+    cbn [fst]. destruct RS as (S1 & S2 & S3 & _).
     destruct (aget a i) as [e0|] eqn:Ei; [|congruence].
     rewrite <- Habseg in S1. rewrite ins_m_insert in S1 by exact Habsent.
     assert (Habs : abs_tree (mkT a2 R md (t_size t + 1)) = m_insert key val (abs_tree t)).
@@ -2114,4 +2140,229 @@ Proof.
     + apply N.eqb_neq in Ek.
       rewrite m_insert_key_absent by (apply (search_post_absent t k _ Hinv Hsp Ek)).
       apply insert_precise_refines; auto.
+Qed.
+
+
+(* ================= Erase ================= *)
+
+(* ---------- list-level facts on m_erase ---------- *)
+Lemma m_erase_app : forall k v l1 l2, (forall e, In e l1 -> fst e <> k) ->
+  m_erase k (l1 ++ (k, v) :: l2) = l1 ++ l2.
+Proof.
+  induction l1 as [|[k' v'] r IH]; intros l2 H; cbn [app m_erase].
+  - rewrite N.eqb_refl. reflexivity.
+  - assert (E : (k =? k') = false).
+    { apply N.eqb_neq. intro. subst. apply (H (k', v')); [left|]; reflexivity. }
+    rewrite E. f_equal. apply IH. intros e He. apply H. right. exact He.
+Qed.
+
+Lemma m_erase_absent : forall k l, (forall e, In e l -> fst e <> k) -> m_erase k l = l.
+Proof.
+  induction l as [|[k' v'] r IH]; intros H; cbn [m_erase]; auto.
+  assert (E : (k =? k') = false).
+  { apply N.eqb_neq. intro. subst. apply (H (k', v')); [left|]; reflexivity. }
+  rewrite E. f_equal. apply IH. intros e He. apply H. right. exact He.
+Qed.
+
+Lemma forall_m_erase : forall (P : entry -> Prop) k l, Forall P l -> Forall P (m_erase k l).
+Proof.
+  induction l as [|[k' v'] r IH]; intros Hl; cbn [m_erase]; auto.
+  inversion Hl; subst. destruct (k =? k'); auto.
+Qed.
+
+Lemma m_erase_sorted : forall k l, sorted l -> sorted (m_erase k l).
+Proof.
+  unfold sorted. induction l as [|[k' v'] r IH]; intros Hs; cbn [m_erase]; auto.
+  inversion Hs; subst. destruct (k =? k'); auto. constructor; auto. apply forall_m_erase. assumption.
+Qed.
+
+(* clearing a used slot erases its key *)
+Lemma aclr_refines : forall t p, in_range t -> sorted (abs_tree t) -> aget (t_arr t) p <> None ->
+  used_from (N.to_nat (t_rsz t)) (aclr (t_arr t) p) 1 = m_erase (key_at (t_arr t) p) (abs_tree t) /\
+  S (length (m_erase (key_at (t_arr t) p) (abs_tree t))) = length (abs_tree t).
+Proof.
+  intros t p Hrange Hsorted Hu.
+  pose proof (sorted_abs_psorted t Hrange Hsorted) as Hps.
+  pose proof (Hrange p Hu) as Hp.
+  unfold abs_tree. set (a := t_arr t) in *. set (R := t_rsz t) in *.
+  rewrite used_from_aclr by lia.
+  rewrite (used_from_split_at (N.to_nat R) a 1 p) by lia.
+  pose proof (aget_key_dat a p Hu) as E. rewrite E. cbn [app].
+  rewrite m_erase_app.
+  - split; [reflexivity|]. rewrite !app_length. cbn [length]. rewrite Nat.add_succ_r. reflexivity.
+  - intros e He. apply in_used_from in He. destruct He as (q & Hq & Hqe).
+    destruct e as [k0 d0]. cbn [fst]. rewrite <- (key_at_some _ _ _ _ Hqe).
+    assert (key_at a q < key_at a p); [|lia]. apply Hps; [lia| |exact Hu]. rewrite Hqe. discriminate.
+Qed.
+
+(* the part of erase_it after the decision to rebuild *)
+Definition erase_tail (t1 : tree) (it1 : titer) : tree * N :=
+  let R := t_rsz t1 in
+  let fR := fuel_of R in
+  let dkey := key_at (t_arr t1) (fst it1) in
+  let '(a2, it2) := hole_down fR fR (t_arr t1) R it1 in
+  let a3 := aclr a2 (fst it2) in
+  let '(a4, it4) := rebalance fR a3 R (t_depth t1) it2 0 0%Z in
+  let it5 := if snd it4 <? snd it1 then it1 else it4 in
+  let it6 := go_down fR a4 R it5 dkey in
+  let res := if key_at a4 (fst it6) <? dkey then scan_up fR a4 R (fst it6 + 1) else fst it6 in
+  (mkT a4 R (t_depth t1) (t_size t1 - 1), res).
+
+Lemma erase_it_eq : forall t it,
+  erase_it t it =
+  if t_size t =? 1 then (empty_tree, 1) else
+  let '(t1, it1) :=
+    if lt_ratio (t_size t - 1) (t_rsz t) min_density_percent
+       && negb (gt_ratio (t_size t - 1) (t_rsz t / 2) max_density_percent)
+    then let key := key_at (t_arr t) (fst it) in
+         let t' := rebuild_smaller t in (t', root_search t' key)
+    else (t, it) in
+  erase_tail t1 it1.
+Proof.
+  intros. unfold erase_it, erase_tail. destruct (t_size t =? 1); [reflexivity|].
+  destruct (_ && _); reflexivity.
+Qed.
+
+Lemma erase_tail_refines : forall t i,
+  inv t -> 2 <= t_size t -> aget (t_arr t) i <> None ->
+  abs_tree (fst (erase_tail t (i, lowbit i))) = m_erase (key_at (t_arr t) i) (abs_tree t) /\
+  inv (fst (erase_tail t (i, lowbit i))).
+Proof.
+  intros t i Hinv Hsz Hu.
+  destruct (inv_nonempty_depth t Hinv ltac:(lia)) as [Hmd HR].
+  pose proof Hinv as (Hrange & Hshape & Hsorted & Hlen & _).
+  destruct (aclr_refines t i Hrange Hsorted Hu) as [Hclr Hclen].
+  unfold erase_tail. cbn [fst snd].
+  set (a := t_arr t) in *. set (R := t_rsz t) in *. set (md := t_depth t) in *.
+  pose proof (Hrange i Hu) as Hi. fold R in Hi.
+  assert (Hi0 : i <> 0) by lia.
+  pose proof (node_of_lowbit i Hi0) as Hnode. set (h := N.log2 (lowbit i)) in *. clearbody h.
+  rewrite (node_lowbit _ _ Hnode).
+  destruct (node_in_tree md h i ltac:(lia) Hnode ltac:(lia)) as [Hh Hhi]. rewrite <- HR in Hhi.
+  pose proof (hole_down_fuel_of a R h i Hrange Hshape Hnode Hhi Hu) as HD.
+  destruct (hole_down (fuel_of R) (fuel_of R) a R (i, 2 ^ h)) as [a2 it2].
+  destruct HD as (h2 & i2 & -> & Hnode2 & Hh2 & Hlo2 & Hhi2 & Hsame & Hget2 & Hsub2 & Hseq & Hrange2 & Hshape2 & Hframe2).
+  cbn [fst snd].
+  set (a3 := aclr a2 i2).
+  assert (Hu2 : aget a2 i2 <> None) by (rewrite Hget2; exact Hu).
+  pose proof (Hrange2 i2 Hu2) as Hi2.
+  assert (G3 : forall j, aget a3 j = if j =? i2 then None else aget a2 j) by (intro j; apply aget_aclr).
+  assert (Hrange3 : in_range_a a3 R).
+  { intros j Hj. rewrite G3 in Hj. destruct (j =? i2); [congruence|]. apply Hrange2. exact Hj. }
+  assert (Hshape3 : shape_a a3 R).
+  { intros x j Hx Hxn Hj. rewrite G3. destruct (j =? i2) eqn:Ej; [reflexivity|]. apply N.eqb_neq in Ej.
+    rewrite G3 in Hxn. destruct (x =? i2) eqn:Ex.
+    - apply N.eqb_eq in Ex. subst x. rewrite (node_lowbit _ _ Hnode2) in Hj. apply Hsub2; assumption.
+    - apply (Hshape2 x j Hx Hxn Hj). }
+  assert (Hn3 : aget a3 i2 = None) by (rewrite G3, N.eqb_refl; reflexivity).
+  assert (Hfinal : forall a4, seg a4 1 R = seg a3 1 R -> in_range_a a4 R -> shape_a a4 R ->
+            abs_tree (mkT a4 R md (t_size t - 1)) = m_erase (key_at a i) (abs_tree t) /\
+            inv (mkT a4 R md (t_size t - 1))).
+  { intros a4 E4 R4 S4.
+    assert (Habs : abs_tree (mkT a4 R md (t_size t - 1)) = m_erase (key_at a i) (abs_tree t)).
+    { rewrite abs_seg. cbn [t_arr t_rsz]. rewrite E4. rewrite <- Hclr, <- Hseq.
+      unfold seg. f_equal. lia. }
+    split; [exact Habs|]. unfold inv. rewrite Habs. cbn [t_arr t_rsz t_depth t_size].
+    split; [exact R4|]. split; [exact S4|].
+    split. { apply m_erase_sorted. exact Hsorted. }
+    split. { rewrite <- Hlen, <- Hclen. lia. }
+    right. split; [exact Hmd|]. split; [exact HR|lia]. }
+  destruct (N.eq_dec R 3) as [E3|HR3].
+  - (* no rebalancing in the smallest tree *)
+    rewrite E3. rewrite rebalance_R3. cbn [fst]. rewrite <- E3.
+    apply Hfinal; auto.
+  - pose proof (rebalance_spec a3 R md h2 i2 0 0%Z Hmd HR HR3 Hrange3 Hshape3 Hnode2 ltac:(lia) ltac:(lia)) as RS.
+    assert (Hanc : forall h' i', node h' i' -> h2 < h' -> i' - (2 ^ h' - 1) <= i2 <= i' + (2 ^ h' - 1) ->
+                     i' <= R -> aget a3 i' <> None).
+    { intros h' i' Hn' Hlt Hin HiR. rewrite G3.
+      destruct (i' =? i2) eqn:E.
+      { apply N.eqb_eq in E. subst i'. pose proof (node_unique _ _ _ Hn' Hnode2). lia. }
+      intro Hnone. apply Hu2. apply (Hshape2 i' i2); [pose proof (node_pos _ _ Hn'); lia|exact Hnone|].
+      rewrite (node_lowbit _ _ Hn'). exact Hin. }
+    specialize (RS Hanc ltac:(intro C; congruence)).
+    destruct (rebalance (fuel_of R) a3 R md (i2, 2 ^ h2) 0 0%Z) as [a4 it4].
+    cbn [fst]. destruct RS as (S1 & S2 & S3 & _). rewrite Hn3 in S1.
+    apply Hfinal; auto.
+Qed.
+
+Lemma used_in_abs : forall t p, in_range t -> aget (t_arr t) p <> None ->
+  In (key_at (t_arr t) p, dat_at (t_arr t) p) (abs_tree t).
+Proof.
+  intros t p Hr Hu. apply in_abs_tree_range; [exact Hr|]. exists p. apply aget_key_dat. exact Hu.
+Qed.
+
+Theorem erase_it_refines : forall t it,
+  inv t -> aget (t_arr t) (fst it) <> None -> snd it = lowbit (fst it) ->
+  abs_tree (fst (erase_it t it)) = m_erase (key_at (t_arr t) (fst it)) (abs_tree t) /\
+  inv (fst (erase_it t it)).
+Proof.
+  intros t [i o] Hinv Hu Ho. cbn [fst snd] in *. subst o.
+  pose proof Hinv as (Hrange & Hshape & Hsorted & Hlen & _).
+  pose proof (used_in_abs t i Hrange Hu) as Hin.
+  rewrite erase_it_eq.
+  destruct (t_size t =? 1) eqn:E1.
+  - apply N.eqb_eq in E1. cbn [fst]. rewrite E1 in Hlen.
+    destruct (abs_tree t) as [|e [|e' l]]; [destruct Hin| |cbn in Hlen; lia].
+    destruct Hin as [Heq|[]]. rewrite Heq. cbn [m_erase]. rewrite N.eqb_refl.
+    split; [reflexivity|apply inv_empty_tree].
+  - apply N.eqb_neq in E1.
+    assert (Hsz : 2 <= t_size t).
+    { assert (t_size t <> 0); [|lia]. intro E0. rewrite (inv_size0_abs t Hinv E0) in Hin. destruct Hin. }
+    destruct (lt_ratio (t_size t - 1) (t_rsz t) min_density_percent
+              && negb (gt_ratio (t_size t - 1) (t_rsz t / 2) max_density_percent)) eqn:Ec.
+    + (* rebuild a smaller tree first *)
+      cbv beta iota zeta. cbn [fst snd].
+      apply andb_true_iff in Ec. destruct Ec as [Ec1 Ec2].
+      apply negb_true_iff in Ec2. unfold gt_ratio, max_density_percent in Ec2. apply N.ltb_ge in Ec2.
+      unfold lt_ratio, min_density_percent in Ec1. apply N.ltb_lt in Ec1.
+      destruct (inv_nonempty_depth t Hinv ltac:(lia)) as [Hmd HR].
+      assert (Hmd3 : 3 <= t_depth t).
+      { destruct (N.eq_dec (t_depth t) 2) as [E|E]; [|lia]. rewrite E in HR. cbn in HR.
+        rewrite HR in Ec1, Ec2. change (3 / 2) with 1 in Ec2. lia. }
+      set (d := t_depth t - 2).
+      assert (Hd : t_depth t = N.succ (N.succ d)) by (unfold d; lia).
+      assert (HR' : t_rsz t = 2 ^ N.succ (N.succ d) - 1) by (rewrite <- Hd; exact HR).
+      assert (Hhalf : t_rsz t / 2 = 2 ^ N.succ d - 1).
+      { rewrite HR'. rewrite (N.pow_succ_r' 2 (N.succ d)). pose proof (pow2_pos (N.succ d)).
+        symmetry. apply (N.div_unique _ 2 _ 1); lia. }
+      assert (Hfit : t_size t <= 2 ^ N.succ d - 1).
+      { rewrite <- Hhalf. pose proof (pow2_pos (N.succ d)).
+        assert (3 <= 2 ^ N.succ d). { rewrite N.pow_succ_r'. pose proof (N.pow_le_mono_r 2 1 d ltac:(lia) ltac:(unfold d; lia)). cbn in H0. lia. }
+        lia. }
+      destruct (rebuild_smaller_inv t d Hinv ltac:(lia) ltac:(unfold d; lia) HR' Hfit) as [Hinv' Habs'].
+      set (t' := rebuild_smaller t) in *.
+      set (key := key_at (t_arr t) i) in *.
+      assert (Hsz' : t_size t' = t_size t).
+      { destruct Hinv' as (_ & _ & _ & Hlen' & _). rewrite <- Hlen', Habs'. exact Hlen. }
+      pose proof (search_ok_holds t' key Hinv' ltac:(lia)) as Hsp'.
+      assert (Hk' : key_at (t_arr t') (fst (root_search t' key)) = key).
+      { destruct (N.eq_dec (key_at (t_arr t') (fst (root_search t' key))) key) as [E|E]; [exact E|].
+        exfalso. apply (search_post_absent t' key _ Hinv' Hsp' E _ ltac:(rewrite Habs'; exact Hin)).
+        reflexivity. }
+      destruct Hsp' as (_ & Ho' & Hu' & _).
+      destruct (root_search t' key) as [i' o'] eqn:Ers. cbn [fst snd] in *. subst o'.
+      rewrite <- Habs', <- Hk'.
+      apply erase_tail_refines; auto. lia.
+    + apply erase_tail_refines; auto.
+Qed.
+
+(* (E) *)
+Theorem erase_key_refines : forall t k, inv t ->
+  abs_tree (fst (erase_key t k)) = m_erase k (abs_tree t) /\ inv (fst (erase_key t k)).
+Proof.
+  intros t k Hinv. unfold erase_key. destruct (t_size t =? 0) eqn:E.
+  - apply N.eqb_eq in E. cbn [fst]. rewrite (inv_size0_abs t Hinv E). split; [reflexivity|exact Hinv].
+  - apply N.eqb_neq in E.
+    pose proof (search_ok_holds t k Hinv E) as Hsp.
+    destruct (key_at (t_arr t) (fst (root_search t k)) =? k) eqn:Ek.
+    + apply N.eqb_eq in Ek. destruct Hsp as (_ & Ho & Hu & _).
+      rewrite <- Ek at 2. apply erase_it_refines; auto.
+    + apply N.eqb_neq in Ek. cbn [fst]. split; [|exact Hinv].
+      symmetry. apply m_erase_absent. apply (search_post_absent t k _ Hinv Hsp Ek).
+Qed.
+
+Theorem erase_pos_refines : forall t p, inv t -> aget (t_arr t) p <> None ->
+  abs_tree (fst (erase_pos t p)) = m_erase (key_at (t_arr t) p) (abs_tree t) /\ inv (fst (erase_pos t p)).
+Proof.
+  intros t p Hinv Hu. unfold erase_pos, it_of. apply (erase_it_refines t (p, lowbit p)); auto.
 Qed.
